@@ -29,6 +29,10 @@
 #include "Sprite/Animation.h"
 #include "Sprite/ArtFile.h"
 #include "Stream/Writer.h"
+#include <functional>
+#include <new>
+#include "Stream/DynamicMemoryWriter.h"
+#include "Map/Map.h"
 using namespace OP2Utility;
 using namespace OP2Utility::Archive;
 
@@ -39,6 +43,70 @@ using namespace OP2Utility::Archive;
 // mask of a bit-field: zero the object, store all-ones in the field, dump the word
 #define MASK32(name, T, f, ones) do { T t; std::memset(&t, 0, sizeof t); t.f = ones; uint32_t w = 0; std::memcpy(&w, &t, sizeof t < 4 ? sizeof t : 4); \
   outf("def mask_%s : Nat := %u\n", name, w); } while (0)
+
+
+// ---- C18: which bytes of a freshly built record come from whatever the memory held before? ---------------------------
+// Every record the library builds and then serialises is constructed here *in place* over storage pre-filled with a
+// poison byte (guaranteed copy elision + NRVO construct the factory's local directly in that storage), and dumped.
+namespace {
+template <class T, class F> std::string builtOver(unsigned char fill, F make) {
+  alignas(16) static unsigned char storage[sizeof(T) + 64];
+  std::memset(storage, fill, sizeof storage);
+  T* p = new (storage) T(make());
+  std::string s(reinterpret_cast<const char*>(p), sizeof(T));
+  p->~T();
+  return s;
+}
+template <class T> std::string writtenOver(unsigned char fill) {       // objects with containers: build in poisoned storage, serialise
+  alignas(16) static unsigned char storage[sizeof(T) + 64];
+  std::memset(storage, fill, sizeof storage);
+  T* p = new (storage) T();
+  Stream::DynamicMemoryWriter w; p->Write(w);
+  auto r = w.GetReader(); std::string s(static_cast<std::size_t>(r.Length()), '\0'); if (!s.empty()) r.Read(&s[0], s.size());
+  p->~T();
+  return s;
+}
+WaveFormatEx someFormat() { WaveFormatEx f; std::memset(&f, 0, sizeof f); f.wFormatTag = 1; f.nChannels = 2; f.nSamplesPerSec = 22050; f.nAvgBytesPerSec = 88200; f.nBlockAlign = 4; f.wBitsPerSample = 16; f.cbSize = 0; return f; }
+struct Probe { const char* name; std::function<std::string(unsigned char)> run; };
+const std::vector<Probe>& probes() {
+  static const std::vector<Probe> v = {
+    {"VolSectionHeader", [](unsigned char f) { return builtOver<VolFile::SectionHeader>(f, [] { return VolFile::SectionHeader(MakeTag("VBLK"), 0x1234u); }); }},
+    {"VolIndexEntry", [](unsigned char f) { return builtOver<VolFile::IndexEntry>(f, [] { return VolFile::IndexEntry(); }); }},
+    {"ClmHeader", [](unsigned char f) { return builtOver<ClmFile::ClmHeader>(f, [] { return ClmFile::ClmHeader::MakeHeader(someFormat(), 3); }); }},
+    {"ClmIndexEntry", [](unsigned char f) { return builtOver<ClmFile::IndexEntry>(f, [] { return ClmFile::IndexEntry(); }); }},
+    {"WaveHeader", [](unsigned char f) { return builtOver<WaveHeader>(f, [] { return WaveHeader::Create(someFormat(), 77); }); }},
+    {"MapHeader", [](unsigned char f) { return builtOver<MapHeader>(f, [] { return MapHeader(); }); }},
+    {"BmpHeader", [](unsigned char f) { return builtOver<BmpHeader>(f, [] { return BmpHeader::Create(1000, 54); }); }},
+    {"ImageHeader", [](unsigned char f) { return builtOver<ImageHeader>(f, [] { return ImageHeader::Create(5, -3, 8); }); }},
+    {"TilesetHeader", [](unsigned char f) { return builtOver<Tileset::TilesetHeader>(f, [] { return Tileset::TilesetHeader::Create(2); }); }},
+    {"PpalHeader", [](unsigned char f) { return builtOver<Tileset::PpalHeader>(f, [] { return Tileset::PpalHeader::Create(); }); }},
+    {"PaletteHeader", [](unsigned char f) { return builtOver<PaletteHeader>(f, [] { return PaletteHeader::CreatePaletteHeader(); }); }},
+    {"SpriteSectionHeader", [](unsigned char f) { return builtOver<SectionHeader>(f, [] { return SectionHeader(MakeTag("PPAL"), 1048); }); }},
+    {"DefaultMapWritten", [](unsigned char f) { return writtenOver<Map>(f); }},
+    {"DefaultArtFileWritten", [](unsigned char f) { return writtenOver<ArtFile>(f); }},
+  };
+  return v;
+}
+}
+// layout.poison <fill byte> : every probe's bytes when built over storage filled with that byte
+DRV_CMD(layout_poison, "layout.poison") {
+  unsigned char fill = static_cast<unsigned char>(drv::toU64(drv::need(a, 0)));
+  std::string out;
+  for (const auto& p : probes()) { if (!out.empty()) out += " "; out += std::string(p.name) + "=" + drv::showBytes(p.run(fill)); }
+  return out;
+}
+static std::string uninitFacts() {
+  std::string out;
+  for (const auto& p : probes()) {
+    std::string x = p.run(0x00), y = p.run(0xFF), z = p.run(0xA5);
+    std::string list; std::size_t n = 0;
+    std::size_t len = x.size() < y.size() ? x.size() : y.size();
+    for (std::size_t i = 0; i < len; ++i) if (x[i] != y[i] || x[i] != z[i]) { if (n++) list += ", "; list += std::to_string(i); }
+    if (x.size() != y.size() || x.size() != z.size()) { if (n++) list += ", "; list += std::to_string(len); }   // length itself depends on garbage
+    out += std::string("def uninit_") + p.name + " : List Nat := [" + list + "]\n";
+  }
+  return out;
+}
 
 static std::string g_out;
 static void outf(const char* fmt, ...) __attribute__((format(printf,1,2)));
@@ -140,6 +208,7 @@ DRV_CMD(layout_dump, "layout.dump") {
   { Tag t = ArtFile::TagPalette; unsigned char b[4]; std::memcpy(b, &t, 4); outf("def prt_TagPalette : List Nat := [%u, %u, %u, %u]\n", b[0], b[1], b[2], b[3]); }
   NAT("DefaultCopyChunkSize", Stream::Writer::DefaultCopyChunkSize);
   NAT("huffLZ_bufferSize", sizeof(HuffLZ::m_DecompressBuffer));
+  g_out += uninitFacts();
   outf("end Op2.Gen.Layout\n");
   if (!g_out.empty() && g_out.back() == '\n') g_out.pop_back();
   return g_out;
